@@ -151,7 +151,10 @@ def execute(scn, keep_log=False, hook=None):
         mode = common.msg_mode(st.cfg, m)
         # (a call that is parked inside send_pgn right now may or may not have taken its session number yet: not counted as certain)
         sure = sum(1 for r in inflight[m['stack']] if r['kind'] == mode and r['done'] is None and not r.get('parked_call'))
-        maybe = sum(1 for r in inflight[m['stack']] if r['kind'] == mode and (r['done'] is None or sim.now < r['done'] + release_slack))
+        # (a session the bus monitor saw finish while threads of the stack were parked / waiting for a parked lock holder is released that much later)
+        blk = blocked.get(m['stack'], (0, 0))
+        maybe = sum(1 for r in inflight[m['stack']] if r['kind'] == mode and (r['done'] is None or sim.now < r['done'] + release_slack + (
+            (blk[1] - blk[0]) if (r['done'] <= blk[1] and sim.now < blk[1] + release_slack) else 0)))
         before_frames = len(bus.frames) + len(bus.suppressed)
         lock_waits0 = sim.lock_waits
         t_call = sim.now
@@ -178,6 +181,7 @@ def execute(scn, keep_log=False, hook=None):
         if was_held:
             stats['preempted_calls'] += 1
         if was_held or sim.lock_waits != lock_waits0:
+            blocked[m['stack']] = (min(t_call, blocked.get(m['stack'], (t_call, 0))[0]) if blocked.get(m['stack'], (0, 0))[1] >= t_call else t_call, sim.now)
             # (also for a call that waited for a lock another thread held: time passed inside the call)
             # sessions that ended while the call was held are free
             sure = sum(1 for r in inflight[m['stack']] if r is not rec0 and r['kind'] == mode and r['done'] is None and not r.get('parked_call'))
@@ -223,6 +227,7 @@ def execute(scn, keep_log=False, hook=None):
     base = sim.now
     txcount = {}
     nest = [0]
+    blocked = {}    # stack -> (from, to): the latest stretch of time in which an application call was parked or calls waited for a lock
     held = []       # (stack, CA, destination) of the application call that is parked inside send_pgn right now
 
     def pair_key(m):
